@@ -281,25 +281,29 @@ func runC15(l *core.Ledger) {
 	c15Pointees(l, r, roots, lockState)
 	c15Globals(l, r, roots, lockState)
 
-	// atomicFlag methods use only sync/atomic
-	for _, name := range []string{"set", "get", "clear"} {
-		f := r.fn("atomicFlag." + name)
-		if f == nil {
-			l.Unknown("C15-A1", "atomicFlag."+name, token.NoPos, "method not found")
-			continue
-		}
-		ok := true
-		n := 0
+	// every access to the flag word of atomicFlag, in whichever method, is a sync/atomic call
+	{
+		per := map[*ssa.Function][2]int{} // accesses, atomic ones
 		for _, a := range collectAccesses(l, r, "atomicFlag", "flag") {
-			if a.fn != f {
-				continue
+			c := per[a.fn]
+			c[0]++
+			if strings.HasPrefix(a.kind, "addr:sync/atomic.") {
+				c[1]++
 			}
-			n++
-			if !strings.HasPrefix(a.kind, "addr:sync/atomic.") {
-				ok = false
-			}
+			per[a.fn] = c
 		}
-		l.Check(ok && n > 0, "C15-A1", "gorums.(atomicFlag)."+name, f.Pos(), "sync/atomic only", "atomicFlag."+name+" touches the flag non-atomically")
+		var fns []*ssa.Function
+		for f := range per {
+			fns = append(fns, f)
+		}
+		sort.Slice(fns, func(i, j int) bool { return fnKey(fns[i]) < fnKey(fns[j]) })
+		for _, f := range fns {
+			c := per[f]
+			l.Check(c[0] == c[1], "C15-A1", fnKey(f), f.Pos(), "sync/atomic only", fnKey(f)+" touches the flag word non-atomically")
+		}
+		if len(fns) < 2 {
+			l.Unknown("C15-A1", "atomicFlag/methods", token.NoPos, "fewer than two functions access the flag word of atomicFlag: type not found or reshaped")
+		}
 	}
 
 	c15Escape(l, r)
